@@ -43,6 +43,8 @@ def run(ctx):
         g.exhaustive(ctx, "MC_c06_gate.cfg", "C06 safety (gated worker: Receive / merge / QueueBroadcast)", timeout=3000, coverage=True)
         g.exhaustive(ctx, "MC_c06_gate_garbage.cfg", "C06 safety (gated worker + malformed packets)", timeout=3000)
         g.exhaustive(ctx, "MC_c06_gate_nover.cfg", "negative control: Invalidates without the version test", timeout=1200, expect_violation="InvalidationSafe")
+        g.exhaustive(ctx, "MC_c06_keys.cfg", "C06 safety (two keys sharing the broadcast queues)", timeout=3000)
+        g.exhaustive(ctx, "MC_c06_keys_nokey.cfg", "negative control: Invalidates without the key comparison", timeout=1200, expect_violation="InvalidationSafe")
         g.exhaustive(ctx, "MC_c06_thorough.cfg", "C06 safety (3 nodes)", timeout=3000)
         g.exhaustive(ctx, "MC_c06_live_thorough.cfg", "C06 liveness (3 nodes)", timeout=3000)
         g.require_action_coverage(ctx, ["ATick", "ACas", "AGossip", "ADeliver", "AWork", "AGateClose", "AGateOpen", "AGarbage", "APushPull",
